@@ -15,6 +15,7 @@ Classes == [
   closed      |-> [kinds |-> Kinds \cup {"file", "dim"}, variants |-> {"getter", "mutator"}, outcome |-> "throws"],
   index_past  |-> [kinds |-> Kinds \cup {"file", "dim"}, variants |-> {"count", "count+1", "max"}, outcome |-> "throws"],
   wrong_rank  |-> [kinds |-> {"array", "view"}, variants |-> {"lower-read", "higher-read", "lower-write", "higher-write", "empty-read"}, outcome |-> "any"],
+  io_shape    |-> [kinds |-> {"array", "view"}, variants |-> {"empty-count", "empty-offset", "both-empty", "ones", "whole"}, outcome |-> "any"],   \* count / offset vectors left empty or minimal, with and without calibration, every element type, exact-size buffers
   outside     |-> [kinds |-> {"array", "view", "frame"}, variants |-> {"offset", "count", "huge", "zero-count"}, outcome |-> "any"],
   empty       |-> [kinds |-> {"tag", "mtag", "array", "frame", "section", "prop"}, variants |-> {"retrieve", "feature", "read", "index0"}, outcome |-> "any"],
   badarg      |-> [kinds |-> {"array", "tag", "mtag", "frame", "prop"}, variants |-> {"nan", "inf", "negative", "hugevec", "emptyvec"}, outcome |-> "any"] ]
